@@ -28,7 +28,12 @@ RULE = ("every binary operator (+ - * / **) with a MeasurementArray on either si
         "them with length 1) + 15000 compositions (exhaustive = the combination classes are "
         "enumerated completely; contents are sampled). Non-trivial = a "
         "quantity-valued result whose elements have non-zero uncertainty coming from both sides "
-        "of a binary operation or through a non-linear function; distinct by hash of the case")
+        "of a binary operation or through a non-linear function; distinct by hash of the case. "
+        "Operand kinds also: a measurement recorded from readings (as many readings as array elements, "
+        "or another number), np.int64 / np.float32 / Fraction scalars. SPECIAL VALUES: for every "
+        "function and operator a class whose element 0 is a special value (zeros and extrema of the "
+        "degree functions, 0, 1, exact squares and powers, domain ends, exponents 0/1/2/-1/0.5, bases "
+        "1/0/10) next to ordinary values, lists mixing ints and floats, three times per quick run")
 ASSUMPTIONS = ["theorems are about the model in which element-wise-ness holds by construction; that "
                "numpy object-array broadcasting and np.vectorize behave like the model is exercised "
                "by the correspondence run, not proved",
@@ -119,12 +124,14 @@ def observe(q, np, case):
     return out
 
 
-def _tight(a, b):
+def _tight(a, b, rel=1e-12):
     """array element vs scalar result: same code on the same objects (a few ulp allowed for
-    int-vs-numpy-int operands taking different pow/convert paths)"""
+    int-vs-numpy-int operands taking different pow/convert paths; binary32 resolution when an
+    operand is an np.float32: numpy then computes in binary32, and not at the same places in the
+    array path and in the scalar path)"""
     if math.isnan(a) or math.isnan(b):
         return math.isnan(a) and math.isnan(b)
-    return a == b or abs(a - b) <= 1e-12 * max(abs(a), abs(b)) + 1e-300
+    return a == b or abs(a - b) <= rel * max(abs(a), abs(b)) + 1e-300
 
 
 def _nontrivial(case):
@@ -173,6 +180,13 @@ def judge(case, o, m):
         return [], True
     if "scalar_exception" in o:
         return [], True       # the scalar operation itself is undefined here: nothing to compare with
+    if any(s.get("q") is not None and not (math.isfinite(s["value"]) and math.isfinite(s["error"]))
+           for s in o["scalars"]):
+        # an element outside the operator's domain (0 +/- e raised to 0.5: infinite derivative; nan):
+        # the scalar operation yields inf / nan there, whether the array operation yields the same
+        # or raises is not what the statement is about (special-value cases go to such edges)
+        return [], True
+    rel = 4e-6 if any(l.get("ty") == "npf32" for l in case["leaves"]) else 1e-12
     if "array_exception" in o:
         fail("exception:" + o["array_exception"].split(":")[0],
              "the array operation raised {} although the operation on every i-th element "
@@ -228,11 +242,11 @@ def judge(case, o, m):
                 "a quantity" if s["q"] else "a plain number"), impl=e, expected=s,
                 clause="plain numbers in, plain numbers out")
             break
-        if not _tight(e["value"], s["value"]):
+        if not _tight(e["value"], s["value"], rel):
             fail("value", indep=True, what="value of element {} differs from the scalar operation on the {}-th "
                  "elements".format(i, i), impl=e, expected=s, index=i, clause="value")
             break
-        if not _tight(e["error"], s["error"]):
+        if not _tight(e["error"], s["error"], rel):
             fail("error", indep=True, what="uncertainty of element {} differs from the scalar operation on the "
                  "{}-th elements".format(i, i), impl=e, expected=s, index=i, clause="uncertainty")
             break
@@ -244,7 +258,7 @@ def judge(case, o, m):
         return fails, False
     if exp_kind == "marray":
         for i in range(n):
-            if not _tight(o["values"][i], sc[i]["value"]) or not _tight(o["errors"][i], sc[i]["error"]):
+            if not _tight(o["values"][i], sc[i]["value"], rel) or not _tight(o["errors"][i], sc[i]["error"], rel):
                 fail("values-attr", indep=True, what="result.values/.errors[{}] differ from the scalar result".format(i),
                      impl=[o["values"][i], o["errors"][i]], expected=sc[i], clause="value/uncertainty")
                 return fails, False
@@ -257,6 +271,11 @@ def judge(case, o, m):
              expected="numeric dtype", clause="plain numbers out")
         return fails, False
     # ---- (ii) the Lean model, value / uncertainty under the FB bound
+    if any(l.get("ty") == "npf32" for l in case["leaves"]):
+        # numpy (NEP 50) evaluates `python float <op> np.float32` in binary32 -- in the scalar operation
+        # exactly as in the array operation, so part (i) above is judged in full; the binary64 model
+        # is 1e-8 away by construction and is not compared
+        return fails, False
     skipped = False
     for i in range(exp_len):
         me, ma, e = m["elems"][i], m["at"][i], o["elems"][i]
@@ -306,8 +325,21 @@ def run_cases(ctx, cases, ref=False):
     for c, o, m in zip(cases, obs, mod):
         lab = c["label"].split(":")
         dist[lab[0] + ":" + lab[1]] += 1
-        if len(lab) > 2:
+        if len(lab) > 2 and lab[2] != "special":
             dist["kinds:" + lab[2]] += 1
+        if lab[-1] == "special":
+            dist["special-values:{}".format(lab[0])] += 1
+            if lab[0] == "fn":
+                dist["special-values:fn:{}".format(lab[1])] += 1
+        if c.get("readings"):
+            nr = len(next(iter(c["readings"].values())))
+            dist["repeated-measurement operand:" + ("as many readings as array elements"
+                                                    if nr == c["n"] else "another number of readings")] += 1
+        for l in c["leaves"]:
+            if l.get("ty"):
+                dist["number-type:" + l["ty"]] += 1
+            if l.get("ints") and any(l["ints"]) and not all(l["ints"]):
+                dist["list mixing ints and floats"] += 1
         dist["len:{}".format(c["n"])] += 1
         dist["corr" if c["rho"] else "nocorr"] += 1
         fs, sk = judge(c, o, m)
@@ -337,6 +369,10 @@ def gen_cases(ctx):
         exhaustive = True
         for c in combos:
             cases.append(G.gen_combo(rng, c))
+        for _ in range(2):        # the special-value classes three times per run (other contents)
+            for c in combos:
+                if c[0] in ("opS", "fnS", "log2S"):
+                    cases.append(G.gen_combo(rng, c))
         for _ in range(60):
             cases.append(G.gen_tree(rng))
     else:
